@@ -109,7 +109,7 @@ def scenario(sseed, kind, res, lines, expect, soft=None):
                 td, tr = hold_d.pop(w), hold_r.pop(w)
                 oc = R.choice(["C", "C", "C", "NAN", "INV", "FAIL"])
                 if oc in ("C", "NAN"):
-                    val = float("nan") if oc == "NAN" else R.choice([0.1, 1.0, 2.5, -1.0, 1e-3, 3.0])
+                    val = float("nan") if oc == "NAN" else R.choice([0.1, 1.0, 2.5, -1.0, 1e-3, 3.0, 0.0, 0.0, -0.0])
                     st = R.choice([0, 1, 2])
                     quiet(direct.update_trial, td.trial_id, {"score": val}, step=st)
                     back = quiet(client.update_trial, tr.trial_id, {"score": val}, step=st)
@@ -149,6 +149,16 @@ def scenario(sseed, kind, res, lines, expect, soft=None):
                     if soft is None:
                         raise v
                     soft.append(v)
+                # what a worker reads back: the trial and the space as the client decodes them
+                back = client.get_trial(tr.trial_id)
+                if back.status != b.status or canon_vals(back.hyperparameters.values) != canon_vals(b.hyperparameters.values):
+                    raise Violation("C16", f"get_trial({tr.trial_id}) through RPC: status / values differ from the chief's record", {"tag": "trial-codec"})
+                if (back.score is None) != (b.score is None) or (b.score is not None and b.score == b.score and fl_str(f32(back.score)) != fl_str(f32(b.score))):
+                    raise Violation("C16", f"get_trial({tr.trial_id}) through RPC: score {back.score!r}, the chief holds {b.score!r}", {"tag": "score-codec"})
+                if b.score is not None and b.score == b.score and back.best_step != b.best_step:     # a NaN score has no best step (None travels as 0)
+                    raise Violation("C16", f"get_trial({tr.trial_id}) through RPC: best_step {back.best_step!r}, the chief holds {b.best_step!r}", {"tag": "score-codec"})
+                if sorted(space_sig(client.get_space())) != sorted(space_sig(chief.get_space())):
+                    raise Violation("C16", "get_space() through RPC differs from the chief's search space (entries reported by a worker are missing)", {"tag": "space-stale"})
                 tags["end-" + oc] += 1
             elif w not in hold_d and w not in stopped:
                 td = quiet(direct.create_trial, w)
@@ -184,6 +194,10 @@ def scenario(sseed, kind, res, lines, expect, soft=None):
                     o = chief.trials[t.trial_id]
                     if t.status != o.status or canon_vals(t.hyperparameters.values) != canon_vals(o.hyperparameters.values):
                         raise Violation("C16", f"trial {t.trial_id} retyped / changed by the protocol buffer", {"tag": "trial-codec"})
+                    if (t.score is None) != (o.score is None) or (o.score is not None and o.score == o.score and fl_str(f32(t.score)) != fl_str(f32(o.score))) or \
+                            (o.score is not None and o.score == o.score and t.best_step != o.best_step):
+                        raise Violation("C16", f"best trial {t.trial_id} through RPC: score / best step {t.score!r} / {t.best_step!r}, the chief holds {o.score!r} / {o.best_step!r}",
+                                        {"tag": "score-codec"})
                     for nme in o.metrics.metrics:
                         h1 = [(ob.step, [fl_str(f32(v)) for v in ob.value]) for ob in o.metrics.get_history(nme)]
                         h2 = [(ob.step, [fl_str(f32(v)) for v in ob.value]) for ob in t.metrics.get_history(nme)]
